@@ -21,7 +21,8 @@ def c04_suites(tier):
 
 
 def c05_suites(tier):
-    return [gens.MethodRowsSuite(with_calls=True, with_reset=True), gens.GenHistorySuite(), system.SecondTouchSuite()]
+    return [gens.MethodRowsSuite(with_calls=True, with_reset=True), gens.GenHistorySuite(), system.SecondTouchSuite(),
+            system.CompositionSuite()]
 
 
 def c06_suites(tier):
@@ -69,12 +70,12 @@ def c14_suites(tier):
 
 
 def c15_suites(tier):
-    return [timing.PullOffSuite(), system.RhythmSessionSuite(), timing.HoldUpSuite(), timing.TempoSuite()]
+    return [timing.PullOffSuite(), system.RhythmSessionSuite(), timing.HoldUpSuite(), timing.TempoSuite(), timing.AloneSuite()]
 
 
 def c10_suites(tier):
     return [timing.ProgressSuite(), system.RandomSessionSuite(), system.WaitSuite(), system.StartStopSuite(),
-            system.StatementLevelSuite(), glue.GlueSuite()]
+            system.StatementLevelSuite(), glue.GlueSuite(), system.ServerSuite(light=True)]
 
 
 def c18_suites(tier):
